@@ -633,9 +633,339 @@ def _inline_helpers(tree, known=frozenset()):
     ast.fix_missing_locations(tree)
 
 
+def _loops_to_comps(tree):
+    """N7: `L = []` immediately followed by `for T in IT: [if C:] L.append(E)`
+    (no else, nothing else in the body, L not read in IT/C/E, the loop targets
+    not read afterwards in the enclosing function) becomes
+    `L = [E for T in IT if C]` - the same list, built by the same iteration."""
+
+    def names(node):
+        return {n.id for n in ast.walk(node) if isinstance(n, ast.Name)}
+
+    def rewrite(stmts, fn):
+        i = 0
+        while i < len(stmts) - 1:
+            a, b = stmts[i], stmts[i + 1]
+            i += 1
+            if not (isinstance(a, ast.Assign) and len(a.targets) == 1
+                    and isinstance(a.targets[0], ast.Name)
+                    and isinstance(a.value, ast.List) and not a.value.elts):
+                continue
+            L = a.targets[0].id
+            if not (isinstance(b, ast.For) and not b.orelse and len(b.body) == 1):
+                continue
+            inner, cond = b.body[0], None
+            if isinstance(inner, ast.If) and not inner.orelse and len(inner.body) == 1:
+                cond, inner = inner.test, inner.body[0]
+            if not (isinstance(inner, ast.Expr) and isinstance(inner.value, ast.Call)
+                    and isinstance(inner.value.func, ast.Attribute)
+                    and inner.value.func.attr == "append"
+                    and isinstance(inner.value.func.value, ast.Name)
+                    and inner.value.func.value.id == L
+                    and len(inner.value.args) == 1 and not inner.value.keywords):
+                continue
+            elt = inner.value.args[0]
+            used = names(b.iter) | names(elt) | (names(cond) if cond is not None else set())
+            if L in used or any(isinstance(n, (ast.Yield, ast.YieldFrom, ast.Await, ast.NamedExpr))
+                                for x in (elt, b.iter) + ((cond,) if cond is not None else ())
+                                for n in ast.walk(x)):
+                continue
+            tnames = names(b.target)
+            # the loop variables must be dead after the loop
+            if any(isinstance(n, ast.Name) and n.id in tnames and isinstance(n.ctx, ast.Load)
+                   for st in _all_stmts_after(fn, b) for n in ast.walk(st)):
+                continue
+            comp = ast.ListComp(elt=elt, generators=[ast.comprehension(
+                target=b.target, iter=b.iter, ifs=[cond] if cond is not None else [], is_async=0)])
+            a.value = ast.copy_location(comp, b)
+            del stmts[i]
+            i -= 1
+
+    def visit(node, fn):
+        for f in ("body", "orelse", "finalbody"):
+            sub = getattr(node, f, None)
+            if isinstance(sub, list) and sub and isinstance(sub[0], ast.stmt):
+                for st in list(sub):
+                    visit(st, st if isinstance(st, (ast.FunctionDef, ast.AsyncFunctionDef)) else fn)
+                if fn is not None:
+                    rewrite(sub, fn)
+        for h in getattr(node, "handlers", []) or []:
+            visit(h, fn)
+
+    visit(tree, None)
+
+
+def _all_stmts_after(fn, stmt):
+    """Statements of `fn` that can execute after `stmt` finished: everything that
+    follows it in its own block and in the enclosing blocks, plus - when it sits
+    in a loop - the whole loop (next iteration)."""
+    out = []
+
+    def rec(stmts):
+        for k, st in enumerate(stmts):
+            if st is stmt:
+                out.extend(stmts[k + 1:])
+                return True
+            for f in ("body", "orelse", "finalbody"):
+                sub = getattr(st, f, None)
+                if isinstance(sub, list) and sub and isinstance(sub[0], ast.stmt) and rec(sub):
+                    out.extend(stmts[k + 1:])
+                    if isinstance(st, (ast.For, ast.AsyncFor, ast.While)):
+                        out.append(st)
+                    if isinstance(st, ast.Try):
+                        out.extend(st.finalbody)
+                        for h in st.handlers:
+                            out.extend(h.body)
+                    return True
+            for h in getattr(st, "handlers", []) or []:
+                if rec(h.body):
+                    out.extend(stmts[k + 1:])
+                    out.extend(st.finalbody)
+                    return True
+        return False
+    rec(fn.body)
+    return out
+
+
+def _merge_ifs(tree):
+    """N8: `if a: if b: X` (no else on either, nothing else in the outer body)
+    becomes `if a and b: X`; consecutive `if a: S` `if b: S` with the SAME
+    single exit statement S (return/raise/continue/break, no else) become
+    `if a or b: S`.  Both keep the evaluation order of the tests."""
+
+    def flat_and(a, b):
+        vals = []
+        for x in (a, b):
+            if isinstance(x, ast.BoolOp) and isinstance(x.op, ast.And):
+                vals.extend(x.values)
+            else:
+                vals.append(x)
+        return ast.BoolOp(op=ast.And(), values=vals)
+
+    def flat_or(a, b):
+        vals = []
+        for x in (a, b):
+            if isinstance(x, ast.BoolOp) and isinstance(x.op, ast.Or):
+                vals.extend(x.values)
+            else:
+                vals.append(x)
+        return ast.BoolOp(op=ast.Or(), values=vals)
+
+    def fix(stmts):
+        for st in stmts:
+            for f in ("body", "orelse", "finalbody"):
+                sub = getattr(st, f, None)
+                if isinstance(sub, list) and sub and isinstance(sub[0], ast.stmt):
+                    fix(sub)
+            for h in getattr(st, "handlers", []) or []:
+                fix(h.body)
+        for st in stmts:
+            while isinstance(st, ast.If) and not st.orelse and len(st.body) == 1 \
+                    and isinstance(st.body[0], ast.If) and not st.body[0].orelse:
+                inner = st.body[0]
+                st.test = ast.copy_location(flat_and(st.test, inner.test), st.test)
+                st.body = inner.body
+        i = 0
+        while i < len(stmts) - 1:
+            a, b = stmts[i], stmts[i + 1]
+            if isinstance(a, ast.If) and isinstance(b, ast.If) and not a.orelse and not b.orelse \
+                    and len(a.body) == 1 and len(b.body) == 1 \
+                    and isinstance(a.body[0], (ast.Return, ast.Raise, ast.Continue, ast.Break)) \
+                    and ast.dump(a.body[0]) == ast.dump(b.body[0]):
+                a.test = ast.copy_location(flat_or(a.test, b.test), a.test)
+                del stmts[i + 1]
+                continue
+            i += 1
+
+    fix(tree.body)
+
+
+def _ifexp_to_if(tree):
+    """N9: a statement-level conditional expression becomes a conditional
+    statement: `x = A if C else B` -> `if C: x = A` `else: x = B`, and
+    `return A if C else B` -> `if C: return A` `else: return B` (same test, same
+    single evaluation of the chosen operand).  Path rules then see ONE form."""
+    import copy as _copy
+
+    def fix(stmts):
+        out = []
+        for st in stmts:
+            for f in ("body", "orelse", "finalbody"):
+                sub = getattr(st, f, None)
+                if isinstance(sub, list) and sub and isinstance(sub[0], ast.stmt):
+                    setattr(st, f, fix(sub))
+            for h in getattr(st, "handlers", []) or []:
+                h.body = fix(h.body)
+            v = getattr(st, "value", None)
+            if isinstance(st, ast.Return) and isinstance(v, ast.IfExp):
+                new = ast.If(v.test, [ast.copy_location(ast.Return(v.body), st)],
+                             [ast.copy_location(ast.Return(v.orelse), st)])
+                out.extend(fix([ast.copy_location(new, st)]))
+            elif isinstance(st, ast.Assign) and isinstance(v, ast.IfExp) and len(st.targets) == 1 \
+                    and isinstance(st.targets[0], ast.Name) \
+                    and (isinstance(v.body, ast.Name) and v.body.id == st.targets[0].id
+                         or isinstance(v.orelse, ast.Name) and v.orelse.id == st.targets[0].id):
+                # `x = A if C else x`: the other arm is a no-op, not a re-binding
+                tn = st.targets[0].id
+                if isinstance(v.orelse, ast.Name) and v.orelse.id == tn:
+                    test, val = v.test, v.body
+                else:
+                    test, val = ast.UnaryOp(op=ast.Not(), operand=v.test), v.orelse
+                new = ast.If(test, [ast.copy_location(
+                    ast.Assign([_copy.deepcopy(st.targets[0])], val), st)], [])
+                out.extend(fix([ast.copy_location(new, st)]))
+            elif isinstance(st, ast.Assign) and isinstance(v, ast.IfExp) and len(st.targets) == 1 \
+                    and isinstance(st.targets[0], ast.Name):
+                new = ast.If(v.test,
+                             [ast.copy_location(ast.Assign([_copy.deepcopy(st.targets[0])], v.body), st)],
+                             [ast.copy_location(ast.Assign([_copy.deepcopy(st.targets[0])], v.orelse), st)])
+                out.extend(fix([ast.copy_location(new, st)]))
+            else:
+                out.append(st)
+        return out
+
+    for n in ast.walk(tree):
+        if isinstance(n, (ast.FunctionDef, ast.AsyncFunctionDef)):
+            n.body = fix(n.body)
+    ast.fix_missing_locations(tree)
+
+
+class _Fmt(ast.NodeTransformer):
+    """N6: one spelling for string building - "%s/%s/stat" % (a, b),
+    "{}/{}/stat".format(a, b), a + "/stat", os.path.join(a, b, "stat") and
+    nested f-strings all become ONE flat f-string.  %s/%d/{} placeholders
+    format str/int/bytes operands exactly like an f-string placeholder;
+    os.path.join() denotes the same file as the "/"-joined string whenever its
+    later components are relative, which is how this code base uses it (PIDs,
+    fixed leaf names, directory entries)."""
+
+    @staticmethod
+    def _fv(e):
+        # str(x) inside a placeholder is what the placeholder does anyway
+        if isinstance(e, ast.Call) and isinstance(e.func, ast.Name) and e.func.id == "str" \
+                and len(e.args) == 1 and not e.keywords:
+            e = e.args[0]
+        return ast.FormattedValue(value=e, conversion=-1, format_spec=None)
+
+    @staticmethod
+    def _flat(values):
+        out = []
+        for v in values:
+            if isinstance(v, ast.FormattedValue) and isinstance(v.value, ast.JoinedStr) \
+                    and v.conversion == -1 and v.format_spec is None:
+                out.extend(_Fmt._flat(v.value.values))
+            elif isinstance(v, ast.FormattedValue) and isinstance(v.value, ast.Constant) \
+                    and isinstance(v.value.value, str) and v.conversion == -1 \
+                    and v.format_spec is None:
+                out.append(ast.Constant(v.value.value))
+            else:
+                out.append(v)
+        merged = []
+        for v in out:
+            if isinstance(v, ast.Constant) and merged and isinstance(merged[-1], ast.Constant):
+                merged[-1] = ast.Constant(str(merged[-1].value) + str(v.value))
+            elif isinstance(v, ast.Constant) and v.value == "":
+                continue
+            else:
+                merged.append(v)
+        return merged
+
+    def _joined(self, like, values):
+        return ast.copy_location(ast.JoinedStr(values=self._flat(values)), like)
+
+    def visit_JoinedStr(self, n):
+        self.generic_visit(n)
+        n.values = self._flat(n.values)
+        return n
+
+    def visit_BinOp(self, n):
+        self.generic_visit(n)
+        if isinstance(n.op, ast.Mod) and isinstance(n.left, ast.Constant) \
+                and isinstance(n.left.value, str):
+            fmt = n.left.value
+            import re as _re
+            specs = _re.findall(r"%(.)", fmt)
+            if specs and all(c in "sdi" for c in specs):
+                ops = n.right.elts if isinstance(n.right, ast.Tuple) else (
+                    [n.right] if len(specs) == 1 and not isinstance(
+                        n.right, (ast.Dict, ast.List, ast.Constant)) else None)
+                if ops is not None and len(ops) == len(specs) \
+                        and not any(isinstance(o, ast.Starred) for o in ops):
+                    pieces = _re.split(r"%[sdi]", fmt)
+                    vals = [ast.Constant(pieces[0])]
+                    for o, p in zip(ops, pieces[1:]):
+                        vals += [self._fv(o), ast.Constant(p)]
+                    return self._joined(n, vals)
+        if isinstance(n.op, ast.Add):
+            def pathlit(e):
+                return isinstance(e, ast.Constant) and isinstance(e.value, str) and "/" in e.value
+            def strish(e):
+                return isinstance(e, ast.JoinedStr) or pathlit(e)
+            if (pathlit(n.right) or pathlit(n.left) or isinstance(n.left, ast.JoinedStr)
+                    and strish(n.right) or isinstance(n.right, ast.JoinedStr) and strish(n.left)) \
+                    and not (isinstance(n.left, ast.Constant) and isinstance(n.right, ast.Constant)):
+                vals = []
+                for side in (n.left, n.right):
+                    if isinstance(side, ast.Constant):
+                        vals.append(side)
+                    elif isinstance(side, ast.JoinedStr):
+                        vals.extend(side.values)
+                    else:
+                        vals.append(self._fv(side))
+                return self._joined(n, vals)
+        return n
+
+    def visit_Call(self, n):
+        self.generic_visit(n)
+        f = n.func
+        if isinstance(f, ast.Attribute) and f.attr == "format" and isinstance(f.value, ast.Constant) \
+                and isinstance(f.value.value, str) and not n.keywords and n.args \
+                and not any(isinstance(a, ast.Starred) for a in n.args):
+            fmt = f.value.value
+            if fmt.count("{}") == len(n.args) and fmt.replace("{}", "").count("{") == 0 \
+                    and fmt.replace("{}", "").count("}") == 0:
+                pieces = fmt.split("{}")
+                vals = [ast.Constant(pieces[0])]
+                for o, p in zip(n.args, pieces[1:]):
+                    vals += [self._fv(o), ast.Constant(p)]
+                return self._joined(n, vals)
+        if isinstance(f, ast.Attribute) and f.attr == "join" and isinstance(f.value, ast.Attribute) \
+                and f.value.attr == "path" and isinstance(f.value.value, ast.Name) \
+                and f.value.value.id == "os" and len(n.args) >= 2 and not n.keywords \
+                and not any(isinstance(a, ast.Starred) for a in n.args) \
+                and not any(isinstance(a, ast.Constant) and isinstance(a.value, str)
+                            and a.value.startswith("/") for a in n.args[1:]):
+            vals = []
+            for i, a in enumerate(n.args):
+                if i:
+                    vals.append(ast.Constant("/"))
+                if isinstance(a, ast.Constant) and isinstance(a.value, str):
+                    vals.append(a)
+                elif isinstance(a, ast.JoinedStr):
+                    vals.extend(a.values)
+                else:
+                    vals.append(self._fv(a))
+            return self._joined(n, vals)
+        return n
+
+
 def normalise(tree, known=None):
+    import os as _os0
+    if not _os0.environ.get("VERIF_NO_N6"):
+        _Fmt().visit(tree)
+        ast.fix_missing_locations(tree)
     _Cmp().visit(tree)
+    for n in ast.walk(tree):
+        if isinstance(n, (ast.FunctionDef, ast.AsyncFunctionDef)):
+            _inline_return_temps(n)     # `t = A if C else B; return t` is a return, not an assignment
+    if not _os0.environ.get("VERIF_NO_N9"):
+        _ifexp_to_if(tree)      # before N4 can inline the temporary into an expression
     _If().visit(tree)
+    if not _os0.environ.get("VERIF_NO_N8"):
+        _merge_ifs(tree)
+        ast.fix_missing_locations(tree)
+    if not _os0.environ.get("VERIF_NO_N7"):
+        _loops_to_comps(tree)
     import os as _os
     if not _os.environ.get("VERIF_NO_N5") and known is not None:
         _inline_helpers(tree, known)
@@ -646,4 +976,16 @@ def normalise(tree, known=None):
         for n in ast.walk(tree):
             if isinstance(n, (ast.FunctionDef, ast.AsyncFunctionDef)):
                 _inline_temps(n)
+        if not _os0.environ.get("VERIF_NO_N7"):
+            # bodies that N4 reduced to a single append
+            _loops_to_comps(tree)
+            for n in ast.walk(tree):
+                if isinstance(n, (ast.FunctionDef, ast.AsyncFunctionDef)):
+                    _inline_return_temps(n)
+    if not _os0.environ.get("VERIF_NO_N9"):
+        _ifexp_to_if(tree)
+        _If().visit(tree)
+        if not _os0.environ.get("VERIF_NO_N8"):
+            _merge_ifs(tree)
+        ast.fix_missing_locations(tree)
     return tree
